@@ -77,6 +77,10 @@ type typedArgVertex struct {
 	Subtype string
 
 	Value reflect.Value
+
+	// valuedFor is the name of the named value that was being produced when
+	// Value was set (empty if none).
+	valuedFor string
 }
 
 func (v *typedArgVertex) Hashcode() interface{} {
